@@ -1,6 +1,8 @@
 package c19
 
 import (
+	"strconv"
+
 	plush "github.com/gobuffalo/plush/v5"
 	"github.com/gobuffalo/plush/v5/helpers/iterators"
 	"github.com/gobuffalo/plush/v5/helpers/meta"
@@ -15,6 +17,7 @@ func init() {
 	vrt.Register("C19_groupby_partition", GroupByPartition)
 	vrt.Register("C19_groupby_errors", GroupByErrors)
 	vrt.Register("C19_len", Len)
+	vrt.Register("C19_through_template", ThroughTemplate)
 }
 
 // Step lemma on an arbitrary iterator state: Range(p+1, e) (wrapping) reaches
@@ -208,5 +211,104 @@ func Len() {
 	vrt.Assert(meta.Len(m) == n, "len(map)")
 	vrt.Assert(meta.Len(&m) == n, "len(pointer to map)")
 	vrt.Assert(meta.Len(nil) == 0, "len(nil)")
+	vrt.Cover("done")
+}
+
+// range / between / until / groupBy consumed by a template for loop: the exact
+// sequence, in order, with break and continue in the body, and it terminates
+func ThroughTemplate() {
+	a := vrt.Int()
+	d := vrt.IntRange(0, 3) // number of elements
+	t := vrt.Int()
+	ctx := plush.NewContext()
+	ctx.Set("a", a)
+	ctx.Set("t", t)
+	var iter string
+	var seq []int
+	switch vrt.Choice(4) {
+	case 0:
+		b := a + d - 1
+		vrt.Assume(a > -9223372036854775808)
+		vrt.Assume(b >= a-1)
+		ctx.Set("b", b)
+		iter = "range(a, b)"
+		for i := 0; i < d; i++ {
+			seq = append(seq, a+i)
+		}
+	case 1:
+		b := a + d + 1
+		vrt.Assume(b > a)
+		ctx.Set("b", b)
+		iter = "between(a, b)"
+		for i := 0; i < d; i++ {
+			seq = append(seq, a+1+i)
+		}
+	case 2:
+		ctx.Set("n", d)
+		iter = "until(n)"
+		for i := 0; i < d; i++ {
+			seq = append(seq, i)
+		}
+	default:
+		xs := make([]int, d)
+		for i := range xs {
+			xs[i] = a + i
+		}
+		ctx.Set("xs", xs)
+		iter = "groupBy(2, xs)"
+	}
+	itoa := strconv.Itoa
+	var in, want string
+	if iter == "groupBy(2, xs)" {
+		in = "[<%= for (g) in groupBy(2, xs) { %>(<%= for (v) in g { %><%= v %>,<% } %>)<% } %>]"
+		size := (d + 1) / 2
+		if d == 2 {
+			size = 2
+		}
+		want = "["
+		for i := 0; i < d; i += size {
+			want += "("
+			for j := i; j < i+size && j < d; j++ {
+				want += itoa(a+j) + ","
+			}
+			want += ")"
+		}
+		want += "]"
+	} else {
+		switch vrt.Choice(3) {
+		case 0:
+			in = "[<%= for (i, v) in " + iter + " { %><%= i %>:<%= v %>,<% } %>]"
+			want = "["
+			for i, v := range seq {
+				want += itoa(i) + ":" + itoa(v) + ","
+			}
+			want += "]"
+		case 1:
+			in = "[<%= for (v) in " + iter + " { %><% if (v == t) { continue } %><%= v %>,<% } %>]"
+			want = "["
+			for _, v := range seq {
+				if v == t {
+					continue
+				}
+				want += itoa(v) + ","
+			}
+			want += "]"
+		default:
+			in = "[<%= for (v) in " + iter + " { %><% if (v == t) { break } %><%= v %>,<% } %>]"
+			want = "["
+			for _, v := range seq {
+				if v == t {
+					break
+				}
+				want += itoa(v) + ","
+			}
+			want += "]"
+		}
+	}
+	vrt.Note("input", in)
+	got, err := plush.Render(in, ctx)
+	vrt.Note("got", got)
+	vrt.Assert(err == nil, "a loop over an iterator helper renders")
+	vrt.Assert(got == want, "a template loop over range/between/until/groupBy sees exactly the helper's sequence, and terminates")
 	vrt.Cover("done")
 }
